@@ -298,3 +298,61 @@ Proof.
   unfold result in H. destruct (co s); try discriminate. destruct (intr s); [discriminate|].
   destruct (first s); inversion H; reflexivity.
 Qed.
+
+(** ** With one worker the reported failure is the oldest one *)
+Definition oldest_fail (n : nat) (h : list ev) : Prop :=
+  exists h1 h2, h = h1 ++ EFail n :: h2 /\ forall m, ~ In (EFail m) h2.
+
+Lemma oldest_fail_cons n e h : oldest_fail n h -> oldest_fail n (e :: h).
+Proof. intros (h1 & h2 & -> & H). exists (e :: h1), h2. auto. Qed.
+
+Definition SeqInv (s : st) : Prop :=
+  forall n, (first s = Some n \/ (first s = None /\ exists w, nth_error (ws s) w = Some (WFail n))) ->
+            oldest_fail n (hist s).
+
+Lemma hist_step c s k s' : next c s k = Some s' -> hist s' = hist s \/ exists e, hist s' = e :: hist s.
+Proof. intros H. inv_next H; eauto. Qed.
+
+Lemma single_worker_ws c s w pc :
+  workers c = 1 -> Inv c s -> nth_error (ws s) w = Some pc -> ws s = [pc].
+Proof.
+  intros W I H. pose proof (i_len _ _ I) as Hl. rewrite W in Hl.
+  destruct (ws s) as [|a [|b t]]; try discriminate. destruct w as [|w]; cbn in H.
+  - congruence.
+  - destruct w; discriminate.
+Qed.
+
+Lemma step_seq c s k s' :
+  workers c = 1 -> Inv c s -> EInv c s -> next c s k = Some s' -> SeqInv s -> SeqInv s'.
+Proof.
+  intros W I E H J n Hp.
+  assert (Hold : (first s = Some n \/ (first s = None /\ exists w, nth_error (ws s) w = Some (WFail n))) ->
+                 oldest_fail n (hist s')).
+  { intros Hq. specialize (J n Hq). destruct (hist_step _ _ _ _ H) as [->|[e ->]]; auto.
+    apply oldest_fail_cons; auto. }
+  inv_next H; try (apply Hold; exact Hp).
+  all: try (apply Hold; destruct Hp as [Hp|[Hp [w' Hw']]]; [auto|];
+            right; split; [exact Hp|];
+            apply in_upd_inv in Hw'; destruct Hw' as [Hw'|Hw']; [discriminate|eauto]; fail).
+  - (* fn raises *)
+    destruct Hp as [Hp|[Hp [w' Hw']]]; [apply Hold; auto|].
+    apply in_upd_inv in Hw'. destruct Hw' as [Hw'|Hw']; [|apply Hold; eauto].
+    inversion Hw'; subst n0. exists [], (hist s). split; [reflexivity|].
+    apply nfail_0. rewrite (e_nfail _ _ E). rewrite (proj1 (e_first0 _ _ E) Hp).
+    rewrite (single_worker_ws _ _ _ _ W I Heqo). reflexivity.
+  - (* failure block sets first *)
+    apply Hold. destruct Hp as [Hp|[Hp _]]; [|discriminate]. inversion Hp; subst. right. eauto.
+Qed.
+
+Lemma seq_reachable c s : cfg_ok c -> workers c = 1 -> reachable c s -> SeqInv s.
+Proof.
+  intros Hc W Hr. induction Hr as [|s k s' Hr IH Hn].
+  - intros n [H|[_ [w H]]]; [discriminate|]. cbn in H. apply nth_error_In in H. apply repeat_spec in H.
+    discriminate.
+  - eapply step_seq; eauto; [apply inv_reachable|apply einv_reachable]; auto.
+Qed.
+
+Theorem first_when_sequential c s n :
+  cfg_ok c -> reachable c s -> workers c = 1 -> first s = Some n ->
+  exists h1 h2, hist s = h1 ++ EFail n :: h2 /\ forall m, ~ In (EFail m) h2.
+Proof. intros Hc Hr W Hf. apply (seq_reachable c s Hc W Hr). left. exact Hf. Qed.
